@@ -169,4 +169,6 @@ def diff_summary(a, b, path=''):
                             at = '@' + str(x[f]) + ('/' + str(x['tag']) if x.get('tag') == y.get('tag') and 'tag' in x else '')
                 return diff_summary(x, y, path + '[]' + at)
         return path
-    return path
+    # a leaf: the two values, when they are short (they identify the class of the difference)
+    sa, sb = str(a), str(b)
+    return path + ((':' + sa + '|' + sb) if len(sa) <= 40 and len(sb) <= 40 and not path.endswith(('.val', '.v')) else '')
